@@ -322,6 +322,81 @@ macro_rules! adapter {
                 pg::Throwable::try_parse(s).map(|t| mk_tthrowable(t.class(), t.message()))
             }
 
+            // ---- run-time auto-trait probes (inherent method shadows the trait fallback)
+            pub struct Probe<T: ?Sized>(pub std::marker::PhantomData<T>);
+            pub trait ProbeFallback {
+                fn is_send(&self) -> bool {
+                    false
+                }
+                fn is_sync(&self) -> bool {
+                    false
+                }
+            }
+            impl<T: ?Sized> ProbeFallback for Probe<T> {}
+            impl<T: ?Sized + Send> Probe<T> {
+                pub fn is_send(&self) -> bool {
+                    true
+                }
+            }
+            impl<T: ?Sized + Sync> Probe<T> {
+                pub fn is_sync(&self) -> bool {
+                    true
+                }
+            }
+            pub fn probe_of<T>(_: &T) -> Probe<T> {
+                Probe(std::marker::PhantomData)
+            }
+
+            /// (type name, Send, Sync) for the public handle, iterator and result types,
+            /// plus two controls that must be detected as !Send / !Sync.
+            pub fn probe_table() -> Vec<(&'static str, bool, bool)> {
+                let text: &'static [u8] = b"a.B -> a:\n    1:2:void f(int):3:4 -> b\n";
+                let mapping = pg::ProguardMapping::new(text);
+                let mapper = pg::ProguardMapper::new_with_param_mapping(mapping.clone(), true);
+                let bytes = {
+                    let mut v = Vec::new();
+                    pg::ProguardCache::write(&mapping, &mut v).unwrap();
+                    v
+                };
+                let ab: &'static pgvcore::util::AlignedBuf = Box::leak(Box::new(pgvcore::util::AlignedBuf::from_bytes(&bytes)));
+                let cache: &'static pg::ProguardCache<'static> = Box::leak(Box::new(pg::ProguardCache::parse(ab.as_slice()).unwrap()));
+                let mapper: &'static pg::ProguardMapper<'static> = Box::leak(Box::new(mapper));
+                let frame = pg::StackFrame::new("a", "b", 1);
+                let mi = mapper.remap_frame(&frame);
+                let ci = cache.remap_frame(&frame);
+                let ri = mapping.iter();
+                let summary = mapping.summary();
+                let rec = mapping.iter().next().unwrap();
+                let trace = pg::StackTrace::try_parse(b"a: m\n    at a.b(F:1)\n").unwrap();
+                let thr = pg::Throwable::new("a");
+                let sig = mapper.deobfuscate_signature("(I)V").unwrap();
+                let cerr = pg::ProguardCache::parse(&[]).err().unwrap();
+                let cell = std::cell::Cell::new(0u8);
+                let rc = std::rc::Rc::new(0u8);
+                let mut t = Vec::new();
+                macro_rules! p {
+                    ($name:expr, $v:expr) => {
+                        t.push(($name, probe_of($v).is_send(), probe_of($v).is_sync()));
+                    };
+                }
+                p!("ProguardMapper", mapper);
+                p!("ProguardCache", cache);
+                p!("ProguardMapping", &mapping);
+                p!("RemappedFrameIter (mapper)", &mi);
+                p!("RemappedFrameIter (cache)", &ci);
+                p!("ProguardRecordIter", &ri);
+                p!("MappingSummary", &summary);
+                p!("ProguardRecord / ParseError", &rec);
+                p!("StackFrame", &frame);
+                p!("StackTrace", &trace);
+                p!("Throwable", &thr);
+                p!("DeobfuscatedSignature", &sig);
+                p!("CacheError", &cerr);
+                p!("control: Cell<u8>", &cell);
+                p!("control: Rc<u8>", &rc);
+                t
+            }
+
             macro_rules! impl_remap {
                 ($ty:ty) => {
                     impl<'a> Remap<'a> for $ty {
